@@ -1,6 +1,7 @@
 // Cut of the unsynchronised base pool (inline members of XMLStringPool, removed from every TU): see C17/syncpool.cpp.
 #include "vx.h"
 #include <xercesc/util/XercesDefs.hpp>
+#include <xercesc/util/IllegalArgumentException.hpp>
 using namespace xercesc;
 extern bool vx_held[4]; extern void* vx_sync_pool; extern unsigned vx_const_count, vx_own_cur, vx_const_id, vx_own_id; extern int vx_unprotected;
 static const XMLCh VAL[] = { 'v', 0 };
@@ -16,4 +17,6 @@ extern "C" unsigned vx_getId(void* self, const XMLCh*) { touch(self); return vx_
 extern "C" bool vx_exists(void* self, const XMLCh*) asm("_ZNK11xercesc_4_013XMLStringPool6existsEPKDs");
 extern "C" bool vx_exists(void* self, const XMLCh*) { touch(self); return vx_own_id != 0; }
 extern "C" const XMLCh* vx_getValueForId(void* self, unsigned) asm("_ZNK11xercesc_4_013XMLStringPool13getValueForIdEj");
-extern "C" const XMLCh* vx_getValueForId(void* self, unsigned) { touch(self); return VAL; }
+extern "C" const XMLCh* vx_getValueForId(void* self, unsigned id) { touch(self);      // as the real one: an id outside the table throws
+  if (!id || id >= vx_own_cur) ThrowXML(IllegalArgumentException, XMLExcepts::StrPool_IllegalId);
+  return VAL; }
